@@ -225,6 +225,15 @@ func (vc *VC) runTop() {
 	fr.entry = st.clone()
 	vc.entry = fr.entry
 	fr.run(st, pc)
+	// a call-site clause that matched no call of the body binds nothing: the
+	// call it was written for is gone (or the pattern is wrong)
+	if vc.contract != nil {
+		for _, cs := range vc.contract.CallSites {
+			if !fr.csMatched[cs] && strings.TrimSpace(cs.Clause.Src) != "false" { // "assert false" is a prohibition: no call is the good case
+				vc.oblige("binding", "binding", "callsite:"+cs.Callee, tTrue, tFalse, fmt.Sprintf("clause \"at call %s ...\" matches no call in the function body: %s", cs.Callee, cs.Clause.Src))
+			}
+		}
+	}
 	if fr.retCount == 0 && (vc.contract == nil || len(vc.contract.Ensures) > 0) {
 		// a function that never returns normally has no postcondition to check
 	}
